@@ -7,9 +7,9 @@ def prepare(rp, ce, params):
     if not any(t.startswith("with_salt=") for t in tr):
         return None, "plumbing harness: no native replay (pre-image only observable through the hash)"
     n = trace_val(ce, "n")
-    fields = dict(kind="hash_addrs")
+    fields = dict(kind="hash_addrs", via_iter=str(trace_val(ce, "via_iterator")))
     for k in range(n):
-        fields[f"a{k}"] = " ".join(str(m.get(f"a{k}_{i}", 0) & 255) for i in range(2)) + " 0" * 30
+        fields[f"a{k}"] = " ".join(str(m.get(f"a{k}_{i}", 0) & 255) for i in range(32))
     if trace_val(ce, "with_salt"): fields["salt"] = " ".join(str(m.get(f"salt_{i}", 0) & 255) for i in range(2)) + " 0" * 30
 
     def judge(out):
